@@ -69,7 +69,7 @@ func (area) Requires() string {
 }
 func (area) Check() string { return "check_case" }
 func (area) Rule() string {
-	return "histories of 12-45 calls on one pool-backed file behind the bare/FUSE/NFS link layer: open (masks r/w/rw, O_TRUNC), close, link, unlink, read, write (full/partial/failing), setattr (size/permissions/owner), allocate, seek, getattr, UploadFile (SHA256/MD5, hashing read failure), ApplyOpenReadFrozen + frozen ReadAt/Len/GetNextRegionOffset/Close, getBazelOutputServiceStat, upload-delay expiry, fake-CAS Put stepped chunk by chunk and accepted/refused; <=1 call parked per wake-up channel; 30% of histories drop every reference mid-way and keep calling the stale leaf; non-trivial = the pool file was released and at least one later call hit the stale leaf, or an upload/frozen handle overlapped a parked mutator or waited for writers; distinct by hash of the full case term"
+	return "histories of 12-45 calls on one pool-backed file behind the bare/FUSE/NFS link layer: open (masks r/w/rw, O_TRUNC), close, link, unlink, read, write (full/partial/failing), setattr (size/permissions/owner), allocate, seek, getattr, UploadFile (SHA256/MD5, hashing read failure), ApplyOpenReadFrozen + frozen ReadAt/Len/GetNextRegionOffset/Close, getBazelOutputServiceStat, upload-delay expiry, fake-CAS Put stepped chunk by chunk and accepted/refused; <=2 mutators (write, setattr-size, open-trunc: their wake-up order is read off the pool file call log) and <=1 upload parked per wake-up channel; 30% of histories drop every reference mid-way and keep calling the stale leaf; non-trivial = the pool file was released and at least one later call hit the stale leaf, or an upload/frozen handle overlapped a parked mutator or waited for writers; distinct by hash of the full case term"
 }
 
 func (area) Generate(r *rng.R, thorough bool, index int) json.RawMessage {
@@ -196,18 +196,19 @@ type worker struct {
 	sc       *script
 
 	// results
-	out    string        // Gallina output term of a finished mutator / sync call
-	ledger func()        // ledger update to apply when the call turns out to have succeeded
-	dig    digest.Digest // upload / stat
-	hasDig bool
-	err    error
-	handle filesystem.FileReader
-	fn     int
-	rf     bool
-	delay  chan struct{}
-	fired  bool
-	put    *putCall
-	note   string // outcome label for the histogram
+	out       string        // Gallina output term of a finished mutator / sync call
+	ledger    func()        // ledger update to apply when the call turns out to have succeeded
+	dig       digest.Digest // upload / stat
+	hasDig    bool
+	err       error
+	handle    filesystem.FileReader
+	fn        int
+	rf        bool
+	delay     chan struct{}
+	fired     bool
+	put       *putCall
+	note      string // outcome label for the histogram
+	callsFile bool   // a mutator that calls the pool file whenever the file is still referenced
 }
 
 type world struct {
@@ -227,9 +228,10 @@ type world struct {
 	nextTid uint64
 	workers []*worker // live (parked) workers and open frozen handles, by tid
 
-	steps []step
-	dead  bool
-	info  *hcommon.Info
+	steps   []step
+	dead    bool
+	logMark int // length of the pool file's call log before the current op
+	info    *hcommon.Info
 	// what made the history interesting
 	staleCalls, overlap int
 }
@@ -530,8 +532,65 @@ func (w *world) progress(x *worker, first string, at string) {
 // cascade: after an action of the harness, every parked goroutine that was
 // woken by it runs until it returns or parks again; report those sections.
 func (w *world) cascade(timedOut *worker) error {
+	// Mutators woken by one close(unfreezeWakeup) race for f.lock; the order
+	// in which they ran is read off the pool file's call log (every mutator
+	// that is allowed to park next to another one calls the pool file unless
+	// the file has been released, in which case they all return ESTALE and
+	// commute).
+	var woken []*worker
 	for _, x := range append([]*worker(nil), w.workers...) {
-		if x.at != atMut && x.at != atWait {
+		if x.at != atMut {
+			continue
+		}
+		at, err := settle(x)
+		if err != nil {
+			return err
+		}
+		if at == atMut {
+			continue // still parked on the channel it captured
+		}
+		if at != atDone {
+			return fmt.Errorf("mutator thread %d moved from lockMutatingData to %q", x.tid, at)
+		}
+		woken = append(woken, x)
+	}
+	if len(woken) > 1 {
+		log := w.file.logFrom(w.logMark)
+		pos := func(x *worker) int {
+			for i, id := range log {
+				if id == x.gid {
+					return i
+				}
+			}
+			return len(log) + int(x.tid)
+		}
+		sort.SliceStable(woken, func(i, j int) bool {
+			if woken[i].panicked != woken[j].panicked {
+				return !woken[i].panicked
+			}
+			return pos(woken[i]) < pos(woken[j])
+		})
+		w.info.Outs["two-mutators-woken"]++
+	}
+	for _, x := range woken {
+		w.remove(x)
+		ev := g.App("EWakeMut", tidTerm(x))
+		if x.panicked {
+			w.emit(ev, "OPanic")
+			w.info.Outs["panic"]++
+			return nil
+		}
+		if x.ledger != nil {
+			x.ledger()
+		}
+		if x.note != "" {
+			w.info.Outs[x.note]++
+		}
+		w.emit(ev, x.out)
+		w.info.Outs["mutator-woken"]++
+	}
+	for _, x := range append([]*worker(nil), w.workers...) {
+		if x.at != atWait {
 			continue
 		}
 		at, err := settle(x)
@@ -541,30 +600,9 @@ func (w *world) cascade(timedOut *worker) error {
 		if at == x.at {
 			continue // still parked on the channel it captured
 		}
-		switch x.at {
-		case atMut:
-			w.remove(x)
-			ev := g.App("EWakeMut", tidTerm(x))
-			if x.panicked {
-				w.emit(ev, "OPanic")
-				w.info.Outs["panic"]++
-			} else if at == atDone {
-				if x.ledger != nil {
-					x.ledger()
-				}
-				if x.note != "" {
-					w.info.Outs[x.note]++
-				}
-				w.emit(ev, x.out)
-				w.info.Outs["mutator-woken"]++
-			} else {
-				return fmt.Errorf("mutator thread %d moved from lockMutatingData to %q", x.tid, at)
-			}
-		case atWait:
-			ev := g.App("EWakeWait", tidTerm(x), g.Bool(x == timedOut))
-			w.info.Outs[map[bool]string{true: "wait-timeout", false: "wait-writers-closed"}[x == timedOut]]++
-			w.progress(x, ev, at)
-		}
+		ev := g.App("EWakeWait", tidTerm(x), g.Bool(x == timedOut))
+		w.info.Outs[map[bool]string{true: "wait-timeout", false: "wait-writers-closed"}[x == timedOut]]++
+		w.progress(x, ev, at)
 	}
 	return nil
 }
@@ -653,12 +691,25 @@ func (area) Execute(raw json.RawMessage) (term string, info *hcommon.Info, err e
 	}
 	// mutator: a call that goes through lockMutatingData.
 	mutCall := func(name string, mut string, sc *script, f func(x *worker)) error {
+		callsFile := name == "write" || name == "setattr-size" || name == "open-trunc"
 		if w.frozenHandles() > 0 && w.count(atMut) > 0 {
-			info.Outs["skipped-second-sleeper"]++
-			return nil
+			// a second call may park on the same channel only if the order
+			// in which the two run later can be told from the pool file's log
+			ok := callsFile && w.count(atMut) < 2
+			for _, y := range w.workers {
+				if y.at == atMut && !y.callsFile {
+					ok = false
+				}
+			}
+			if !ok {
+				info.Outs["skipped-second-sleeper"]++
+				return nil
+			}
+			info.Outs["second-mutator-parked"]++
 		}
 		wasReleased := released()
 		x := w.spawn("mut", sc, f)
+		x.callsFile = callsFile
 		ev := g.App("EMut", tidTerm(x), mut)
 		at, err := settle(x)
 		if err != nil {
@@ -708,6 +759,7 @@ func (area) Execute(raw json.RawMessage) (term string, info *hcommon.Info, err e
 
 	for _, o := range h.Ops {
 		before := len(w.steps)
+		w.logMark = w.file.logLen()
 		var timedOut *worker
 		info.Ops[o.K]++
 		switch o.K {
